@@ -42,14 +42,14 @@ class CohGen:
             enum_other_scope=False,     # D31/D32 (matlab): enums used outside their own namespace/class
             enum_in_pair=False,         # D30 (matlab)
             ptr_property=False,         # D33 (matlab)
-            static_void_or_pair=(target == 'pybind'),   # D11 (matlab)
+            static_void_or_pair=True,                   # D11 (matlab, repaired)
             templated_func=(target == 'pybind'),        # D12 (matlab)
             templated_static=(target == 'pybind'),      # D13 (matlab)
-            templated_method_pair=False,                # D22 (matlab)
+            templated_method_pair=True,                 # D22 (matlab, repaired)
             this_types=(target == 'pybind'),            # D10 / D28 (matlab)
             templated_class_as_type=(target == 'pybind'),   # D28 (matlab)
             nested_ns_class_enum=True,                  # class-scoped enum in a class at ns depth >= 2 (D25, repaired)
-            global_serialize=False,                     # D20
+            global_serialize=True,                      # D20 (repaired)
             ns_var_default=True,                        # namespaced variable with initialiser (D7, repaired)
             nonconst_print=False,                       # D36 (pybind)
             nonvirtual_inheritance=True,
@@ -58,6 +58,8 @@ class CohGen:
             unsigned_char_params=(target == 'pybind'),  # D41 (matlab): guard isa(x,'unsigned char') can never hold
             class_enum_default=(target == 'matlab'),    # D40 (pybind): default value of the class's own enum type
             typedefs=True,
+            serialize_p=0.0,            # probability that a class declares the serialize() marker
+            reopen_ns=0.25,             # a namespace written as two adjacent blocks (D6, repaired)
         )
         f.update(features)
         self.f = f
@@ -422,6 +424,8 @@ class CohGen:
                 else:
                     members.append(S.Op(op, me, (S.Arg(S.T(name, self.cur_ns, (), True, '&'), self.lname()),)))
         self.cur_class = None
+        if r.random() < f['serialize_p'] and not any(m.k == 'Method' and m.name in ('serialize', 'serializable') for m in members):
+            members.append(S.Method('serialize', S.VOID, (), r.random() < 0.5))
         if any(m.k == 'Method' and m.name in ('serialize', 'serializable') for m in members) and not rec['default_ctor']:
             # DOCS.md: serialize() requires a publicly accessible default constructor (the generated pickle support
             # needs one for serializable() as well although DOCS.md says otherwise: known finding D43)
@@ -522,6 +526,24 @@ class CohGen:
                     return False
         return True
 
+    def reopen(self, items):
+        out = []
+        for it in items:
+            if it.k != 'Namespace':
+                out.append(it)
+                continue
+            sub = self.reopen(it.items)
+            if len(sub) >= 2 and self.r.random() < self.f['reopen_ns']:
+                cut = self.r.randint(1, len(sub) - 1)
+                # adjacent blocks: the declaration order (bases before derived classes) is unchanged
+                out.append(S.Namespace(it.name, tuple(sub[:cut])))
+                out.append(S.Namespace(it.name, tuple(sub[cut:])))
+            else:
+                out.append(S.Namespace(it.name, tuple(sub)))
+        return out
+
     def module(self):
         items = self.namespace_items(0)
+        if self.f['reopen_ns']:
+            items = self.reopen(items)
         return S.Module(tuple(items))
